@@ -42,15 +42,15 @@ CLAIMED = {
              "Each edit kind is invalid by a grammar argument written next to its implementation; both newline variants must be rejected."),
     "C13": C("proptest fault injection: failure at every call index / six deviation kinds, metamorphic against the fault-free run",
              "Driver errors reach the caller as that very error at exactly the failing item; layout deviations make that item an error; earlier items equal the fault-free run."),
-    "C14": C("proptest: generated declares anywhere in the program vs independent evaluation over the same call's answers",
-             "Virtual entries (64 bit, value, expected) compared with the reference; Z/X reads give error items."),
+    "C14": C("proptest: tagged rows; declared expressions evaluated by an independent evaluator over the recording driver's answers of the same call (self-consistency, no reference run)",
+             "Per checked row: every virtual entry is 64 bits wide and shows the declared expression evaluated over the answers of that very call with no variables; a Z/X read => the item must be an error item; expected value = the literal in its column or X; the caller keeps iterating after error items."),
     "C15": C("proptest: repeated parses, interleaved iterators by generated schedules, static-vs-dynamic metamorphic comparison",
              "Parse/bind equality across 2-8 parses, 1-4 interleaved iterators vs a sequential run, try_iter_static gate vs independent static analysis, static rows vs dynamic rows under two scripts.",
              "One open known finding (unassigned variable named like an output) is stepped over, see known_findings.json."),
     "C16": C("proptest: generated circuit descriptions rendered as .dig XML + corruptions of them and of the fixtures; libFuzzer target dig_bytes (thorough)",
              "Totality on any text; interface recovery (labelled pins as a multiset, bidirectional inference iff stated condition), tests verbatim in order, load_test / load_test_by_name equations."),
-    "C17": C("proptest: generated random/resetRandom programs; the crate's hook event log replayed by the reference interpreter",
-             "Range, one-draw-per-evaluation, laziness, reset replay and literal-equivalence decided from the crate's own draw log (feature verif-hooks) replayed through the reference interpreter.",
+    "C17": C("proptest: the crate's hook event log checked for self-consistency, planted probes with unique bounds, metamorphic straight-line control program (no reference run)",
+             "One generator draw per random evaluation, range, reset replay and same-seed determinism from the log alone; planted `(random(B_r))`, `bits(2,random(B))`, `declare VR = random(B)` and a top-level row/resetRandom/row triple with unique bounds tie draws to evaluations and to the values rows show; random(7919) in unselected ite branches must never draw; a straight-line control program with the same random/resetRandom sequence and seed must draw the same values.",
              "Needs the add-only verif-hooks feature; the original draw expression stays what executes."),
     "C18": C("proptest: tagged rows with probe inputs; vars() vs an independent static scope analysis and vs the crate's own evaluation of (v) (self-consistency, no reference values)",
              "After every yielded row: every variable definitely in scope at that source row is reported, nothing that cannot be in scope there is reported (ended loops, device outputs, virtual signals), and each probed variable has exactly the value the crate itself evaluated `(v)` to in that row (innermost binding wins); also after error items caused by virtual signals."),
